@@ -9,6 +9,7 @@
 package avc
 
 import (
+	"bytes"
 	"encoding/hex"
 
 	"github.com/q191201771/lal/pkg/base"
@@ -21,7 +22,9 @@ import (
 )
 
 func ParseSps(payload []byte, ctx *Context) error {
-	br := nazabits.NewBitReader(payload)
+	// ISO-14496-10 7.3.1, 7.4.1: the syntax elements are read from the RBSP, i.e. after the
+	// emulation_prevention_three_byte of every 00 00 03 sequence has been removed.
+	br := nazabits.NewBitReader(nal2rbsp(payload))
 	var sps Sps
 	if err := parseSpsBasic(&br, &sps); err != nil {
 		Log.Errorf("parseSpsBasic failed. err=%+v, payload=%s", err, hex.Dump(nazabytes.Prefix(payload, 128)))
@@ -58,6 +61,14 @@ func ParseSps(payload []byte, ctx *Context) error {
 
 	ctx.Sps = sps
 	return nil
+}
+
+// nal2rbsp 去除防竞争字节 emulation_prevention_three_byte
+func nal2rbsp(nal []byte) []byte {
+	if !bytes.Contains(nal, []byte{0x0, 0x0, 0x3}) {
+		return nal
+	}
+	return bytes.Replace(nal, []byte{0x0, 0x0, 0x3}, []byte{0x0, 0x0}, -1)
 }
 
 // TryParsePps 尝试解析PPS所有字段，实验中，请勿直接使用该函数
